@@ -27,12 +27,14 @@ def q_lit(v):
 
 
 class Unit:
-    def __init__(self, path, cls, method, coq_name, params, ret, mapped=None, siblings=None):
+    def __init__(self, path, cls, method, coq_name, params, ret, mapped=None, siblings=None, objects=None, poppable=()):
         self.path, self.cls, self.method, self.coq_name = path, cls, method, coq_name
         self.params = params            # python name -> (coq name, type), in Coq argument order (dict keeps order)
         self.ret = ret                  # Q | Z | OQ
         self.mapped = mapped or {}      # source text -> (coq name, type): extra Coq arguments standing for that expression
         self.siblings = siblings or {}  # method name -> (coq function, [python arg names], result type, [trailing Coq args])
+        self.objects = objects or {}    # local name -> exact source text of the expression it must be bound to (an object, not a value)
+        self.poppable = tuple(poppable) # dict-valued locals on which `X.pop(None)` may be called; mapped keys then read "text|X,Y"
 
 
 def coerce(term, ty, want):
@@ -53,7 +55,18 @@ class Tr:
     def value(self, e, env):
         u = self.u
         txt = ast.unparse(e)
+        if u.poppable:
+            mentioned = sorted(n for n in u.poppable if any(isinstance(x, ast.Name) and x.id == n for x in ast.walk(e)))
+            if mentioned:
+                key = txt + "|" + ",".join(n for n in mentioned if n in env.get("@popped", ()))
+                if key in u.mapped:
+                    return u.mapped[key]
+                if isinstance(e, (ast.Subscript, ast.Call)):
+                    raise Unsupported(f"`{txt}` in this state of {mentioned}")
         if txt in u.mapped:
+            for n in u.objects:
+                if any(isinstance(x, ast.Name) and x.id == n for x in ast.walk(e)) and n not in env.get("@bound", ()):
+                    raise Unsupported(f"`{txt}` before {n} is bound")
             return u.mapped[txt]
         if isinstance(e, ast.Name) and e.id in env:
             return env[e.id]
@@ -73,11 +86,21 @@ class Tr:
             t, ty = self.value(e.operand, env)
             if ty == "B":
                 return (f"(negb {t})", "B")
+            if ty == "PB":
+                return (f"(pnot {t})", "PB")
         if isinstance(e, ast.BoolOp):
             vs = [self.value(v, env) for v in e.values]
             if all(ty == "B" for _, ty in vs):
                 op = "&&" if isinstance(e.op, ast.And) else "||"
                 return ("(" + f" {op} ".join(t for t, _ in vs) + ")", "B")
+            if all(ty in ("B", "PB") for _, ty in vs):
+                # a comparison that may raise (None compared with < or <=): short-circuit evaluation in the error monad
+                op = "pand" if isinstance(e.op, ast.And) else "por"
+                ts = [t if ty == "PB" else f"(POk {t})" for t, ty in vs]
+                acc = ts[-1]
+                for t in reversed(ts[:-1]):
+                    acc = f"({op} {t} {acc})"
+                return (acc, "PB")
         if isinstance(e, ast.BinOp) and isinstance(e.op, (ast.Add, ast.Sub, ast.Mult, ast.Div)):
             (a, ta), (b, tb) = self.value(e.left, env), self.value(e.right, env)
             if isinstance(e.op, ast.Div):
@@ -111,8 +134,17 @@ class Tr:
             if ta in ("Z", "Zlit") and tb in ("Z", "Zlit"):
                 f = {ast.Lt: "Z.ltb {a} {b}", ast.LtE: "Z.leb {a} {b}", ast.Gt: "Z.ltb {b} {a}", ast.GtE: "Z.leb {b} {a}",
                      ast.Eq: "Z.eqb {a} {b}", ast.NotEq: "negb (Z.eqb {a} {b})"}.get(type(op))
+            elif ta == "OQ" and tb == "OQ":
+                # Optional[float] compared: == / != are total, an ordering with None raises TypeError
+                if isinstance(op, (ast.Eq, ast.NotEq)):
+                    t = f"(oq_eqb {a} {b})"
+                    return (t if isinstance(op, ast.Eq) else f"(negb {t})", "B")
+                g = {ast.Lt: "oq_lt", ast.LtE: "oq_le", ast.Gt: "oq_gt", ast.GtE: "oq_ge"}.get(type(op))
+                if g is None:
+                    raise Unsupported("operator " + type(op).__name__)
+                return (f"({g} {a} {b})", "PB")
             elif ta == "OQ" or tb == "OQ":
-                raise Unsupported("comparison of an Optional value")
+                raise Unsupported("comparison of an Optional value with a plain one")
             else:
                 a, b = coerce(a, ta, "Q"), coerce(b, tb, "Q")
                 f = {ast.Lt: "qltb {a} {b}", ast.LtE: "qleb {a} {b}", ast.Gt: "qltb {b} {a}", ast.GtE: "qleb {b} {a}",
@@ -125,6 +157,8 @@ class Tr:
     # -------------------------------------------------------------------------------------------- statements
     def ret(self, t, ty):
         want = self.u.ret
+        if want == "B" and ty == "PB":
+            return t
         if want == "OQ":
             if ty == "OQ":
                 return f"(POk {t})"
@@ -139,11 +173,28 @@ class Tr:
         s, rest = body[0], body[1:]
         if isinstance(s, ast.Expr) and isinstance(s.value, ast.Constant) and isinstance(s.value.value, str):
             return self.stmts(rest, env, cont)
+        if (isinstance(s, ast.Expr) and isinstance(s.value, ast.Call) and isinstance(s.value.func, ast.Attribute)
+                and s.value.func.attr == "pop" and isinstance(s.value.func.value, ast.Name) and s.value.func.value.id in self.u.poppable
+                and len(s.value.args) == 1 and isinstance(s.value.args[0], ast.Constant) and s.value.args[0].value is None
+                and not s.value.keywords):
+            n = s.value.func.value.id
+            if n in env.get("@popped", ()) or n not in env.get("@bound", ()):
+                raise Unsupported("pop(None) on " + n)
+            env2 = dict(env)
+            env2["@popped"] = tuple(env.get("@popped", ())) + (n,)
+            return self.stmts(rest, env2, cont)
         if isinstance(s, (ast.Assign, ast.AnnAssign)):
             tgt = s.targets[0] if isinstance(s, ast.Assign) and len(s.targets) == 1 else getattr(s, "target", None)
             if not isinstance(tgt, ast.Name) or s.value is None:
                 raise Unsupported("assignment target")
-            if tgt.id in env or tgt.id in self.u.params:
+            if tgt.id in self.u.objects:
+                # a local bound to an object: only the exact expression of the unit spec is accepted
+                if ast.unparse(s.value) != self.u.objects[tgt.id] or tgt.id in env.get("@bound", ()):
+                    raise Unsupported(f"{tgt.id} is bound to `{ast.unparse(s.value)}`")
+                env2 = dict(env)
+                env2["@bound"] = tuple(env.get("@bound", ())) + (tgt.id,)
+                return self.stmts(rest, env2, cont)
+            if tgt.id in env or tgt.id in self.u.params or tgt.id in self.u.objects:
                 raise Unsupported("re-assignment of " + tgt.id)
             t, ty = self.value(s.value, env)
             if ty == "Zlit":
@@ -200,13 +251,15 @@ class Tr:
                         env2[txt] = ("nv", "Q")
                     return f"(match {term} with\n | None => POk None\n | Some nv => {sub.stmts(rest, env2, cont)}\n end)"
             c, ty = self.value(s.test, env)
-            if ty != "B":
+            if ty not in ("B", "PB"):
                 raise Unsupported("condition of type " + ty)
             k = self.stmts(rest, env, cont) if (rest or cont is not None) else None
             thn = self.stmts(s.body, env, k)
             els = self.stmts(s.orelse, env, k) if s.orelse else k
             if els is None:
                 raise Unsupported("a path falls off the end of the function")
+            if ty == "PB":
+                return f"(pif {c}\n {thn}\n {els})"
             return f"(if {c}\n then {thn}\n else {els})"
         raise Unsupported("statement " + ast.unparse(s)[:120])
 
@@ -227,7 +280,9 @@ class Tr:
         if py_params != list(u.params):
             raise Unsupported(f"parameters of {u.method}: {py_params}")
         env = {n: v for n, v in u.params.items() if v[1] != "OBJ"}       # objects are only reachable through mapped expressions
+        env["@bound"], env["@popped"] = (), ()
         cty = {"Q": "Q", "Z": "Z", "B": "bool", "OQ": "option Q"}
+        # the same Coq argument may stand for several source texts
         binders = [f"({c} : {cty[t]})" for (c, t) in list(u.params.values()) + list(u.mapped.values()) if t != "OBJ"]
         # a mapped expression may be listed under several texts with the same Coq name: bind once
         seen, uniq = set(), []
@@ -252,24 +307,48 @@ def units(repo=None):
     return [pl, lo, up]
 
 
-def translate_all(repo):
+def executable_unit():
+    """Market.remain_executable_orders: the decision whether a matching round has anything to do (C03).  The books are objects;
+    what the decision reads from them are the parameters below."""
+    sb, bb = "sell_book", "buy_book"
+    mapped = {
+        "len(self.sell_order_book) == 0": ("sells_empty", "B"), "len(self.buy_order_book) == 0": ("buys_empty", "B"),
+        "sell_best.price": ("sp", "OQ"), "buy_best.price": ("bp", "OQ"),
+        f"None not in {sb} or None not in {bb}|": ("no_market_key", "B"),
+        f"{sb}[None]|": ("sm", "Z"), f"{bb}[None]|": ("bm", "Z"),
+        f"len({sb})|{sb}": ("sl", "Z"), f"len({bb})|{bb}": ("bl", "Z"),       # number of limit price levels (None key popped)
+        f"min(list(cast(Dict[float, int], {sb}).keys()))|{sb}": ("smin", "Q"),
+        f"max(list(cast(Dict[float, int], {bb}).keys()))|{bb}": ("bmax", "Q"),
+    }
+    objects = {"sell_best": "cast(Order, self.sell_order_book.get_best_order())",
+               "buy_best": "cast(Order, self.buy_order_book.get_best_order())",
+               sb: "self.sell_order_book.get_price_volume()", bb: "self.buy_order_book.get_price_volume()"}
+    return Unit("pams/market.py", "Market", "remain_executable_orders", "executable_gen", params={}, ret="B",
+                mapped=mapped, objects=objects, poppable=(sb, bb))
+
+
+def translate_all(repo, groups=("C15", "C19", "C03")):
+    """groups: which units to emit - C15 (price limit), C19 (tick conversions), C03 (remain_executable_orders)"""
     out = ["(* GENERATED by harness/py2coq_arith.py - do not edit *)",
            "Require Import Pams.Prelude Pams.Tick Pams.Match Pams.Market Pams.OrderPy Pams.Sim.",
            "From Coq Require Import QArith Qround.", "Open Scope Z_scope.", ""]
-    for u in units():
+    pl, lo, up = units()
+    todo = []
+    if "C15" in groups:
+        todo.append(pl)
+    if "C19" in groups:
+        lvl = Unit("pams/market.py", "Market", "convert_to_tick_level", "tick_level_gen",
+                   params={"price": ("price", "Q"), "is_buy": ("is_buy", "B")}, ret="Z", mapped={"self.tick_size": ("tick", "Q")},
+                   siblings={"convert_to_tick_level_rounded_lower": ("tick_lower_gen", ["price"], "Z", ["tick"]),
+                             "convert_to_tick_level_rounded_upper": ("tick_upper_gen", ["price"], "Z", ["tick"])})
+        cp = Unit("pams/market.py", "Market", "convert_to_price", "to_price_gen",
+                  params={"tick_level": ("tick_level", "Z")}, ret="Q", mapped={"self.tick_size": ("tick", "Q")})
+        todo += [lo, up, lvl, cp]
+    if "C03" in groups:
+        todo.append(executable_unit())
+    for u in todo:
         out.append(f"(* {u.path}: {u.cls}.{u.method} *)")
         out.append(Tr(u).translate(repo))
-    # Market.convert_to_tick_level: dispatch on the side; Market.convert_to_price
-    lvl = Unit("pams/market.py", "Market", "convert_to_tick_level", "tick_level_gen",
-               params={"price": ("price", "Q"), "is_buy": ("is_buy", "B")}, ret="Z", mapped={"self.tick_size": ("tick", "Q")},
-               siblings={"convert_to_tick_level_rounded_lower": ("tick_lower_gen", ["price"], "Z", ["tick"]),
-                         "convert_to_tick_level_rounded_upper": ("tick_upper_gen", ["price"], "Z", ["tick"])})
-    out.append(f"(* {lvl.path}: {lvl.cls}.{lvl.method} *)")
-    out.append(Tr(lvl).translate(repo))
-    cp = Unit("pams/market.py", "Market", "convert_to_price", "to_price_gen",
-              params={"tick_level": ("tick_level", "Z")}, ret="Q", mapped={"self.tick_size": ("tick", "Q")})
-    out.append(f"(* {cp.path}: {cp.cls}.{cp.method} *)")
-    out.append(Tr(cp).translate(repo))
     return "\n".join(out)
 
 
